@@ -11,7 +11,9 @@ Cookie: header of a new request -> Request.get_cookie:
       several cookies travel in one header.
   F0  (control of the forgery experiment) the unaltered signed value, delivered the way the forgery will be
       delivered (quoted / raw pair), reads back as the value that was set.
-  F1  an altered value (single-character substitution / bit flip / case flip, deletion, insertion, truncation,
+  F1  an altered value (single-character substitution / bit flip / case flip, deletion, insertion - of 'A', '=', '?',
+      the marker '!' and a copy of the neighbouring character of the cookie itself, at every offset incl. in front of
+      and behind the '!' marker: "signature/payload length change" -, truncation,
       signature prefix, signature extension, signature and payload swapped between two cookies, another
       secret, attacker-built payloads with the original / no / unkeyed / wrongly keyed signature) reads as
       absent: get_cookie returns the default object itself, the request does not fail, and
@@ -39,8 +41,9 @@ BOUND = ('round trip: names {n, session_id, all RFC 6265 token punctuation, N} x
          'one letter, non-ASCII, separators, bytes) x attribute sets (4) x {through the application, response/request '
          'objects directly}; all singles, all ordered pairs of unsigned values and seeded random triples in one header. '
          'Forgery: for 3 (quick) / 42 (thorough) signed cookies, EVERY position of the signed value x {substitution by '
-         '7 (quick) / 10 letters incl. non-base64 and non-ASCII, bit flip, case flip, deletion, insertion of 3 letters, '
-         'truncation}, every signature prefix, signature extensions, signature/payload swap with a second cookie, 6 '
+         '7 (quick) / 10 letters incl. non-base64 and non-ASCII, bit flip, case flip, deletion, truncation}, single-character '
+         'INSERTION at every offset 0..len of {A, =, ?, the marker !, a copy of the character of the cookie at that offset '
+         '(of the last one behind the end)}, every signature prefix, signature extensions, signature/payload swap with a second cookie, 6 '
          'other secrets, 9 attacker-built values (marker payload with original/empty/unkeyed/wrong-key signatures, every '
          'signature prefix) x {quoted, raw} delivery; exhaustive over that space')
 NONTRIVIAL_RULE = 'distinct case dicts; every case sets at least one cookie and reads it back (rt) or alters a signed value (forge)'
@@ -76,6 +79,7 @@ OPTS = {'none': {}, 'path': {'path': '/'}, 'many': {'path': '/a', 'max_age': 360
 SUBS_QUICK = ['A', 'Q', '=', '?', '!', '-', 'é']
 SUBS_MORE = ['/', '+', ' ', 'ÿ']
 INS = ['A', '=', '?']
+INS_MARKER = ['!']      # the marker byte itself: '!!<sig>?<msg>', '!<sig>!?<msg>', ... (a length change of the signature part)
 OTHER_SECRETS = {'s3cret': ['S3cret', 's3cre', 's3cret ', 's3crett', 'x', b's3cret\xff'],
                  'ключ€': ['ключ', 'kлюч€', 'ключ€€', 'x', 'ключ€ ', b'\xff'],
                  b'\x00\xffkey': [b'\xffkey', b'\x00\xffke', b'\x00\xffkey!', 'x', b'\x00\xfekey', b'\x00']}
@@ -121,6 +125,10 @@ def _tampers(tier, length, other_secrets):
     for pos in range(length + 1):
         for ch in INS:
             yield dict(k='ins', pos=pos, ch=ch)
+    for pos in range(length + 1):       # (added behind the older enumeration so that the older cases keep their order)
+        for ch in INS_MARKER:
+            yield dict(k='ins', pos=pos, ch=ch)
+        yield dict(k='insdup', pos=pos)  # a byte of the cookie itself: the one at this offset is doubled
     for n in range(0, 25):
         yield dict(k='sigprefix', pos=n)
         yield dict(k='evil_sigprefix', pos=n)
@@ -332,6 +340,10 @@ def _tamper(ombott, case, v, sig, msg):
         return v[:pos]
     if k == 'ins':
         return v[:pos] + t['ch'] + v[pos:] if pos <= len(v) else None
+    if k == 'insdup':
+        if pos > len(v) or not v:
+            return None
+        return v[:pos] + (v[pos] if pos < len(v) else v[-1]) + v[pos:]
     if k == 'sigprefix':
         return '!' + sig[:pos] + '?' + msg if pos < len(sig) else None
     if k == 'sigext':
